@@ -17,7 +17,7 @@ git apply "$S/patch.diff"
 B1=$(go build ./... 2>&1 | grep -v hdf5 | grep -v '^#' | grep -v '^ ' | grep -v compilation | head -5)
 B2=$(go build -tags verif ./... 2>&1 | grep -v hdf5 | grep -v '^#' | grep -v '^ ' | grep -v compilation | head -5)
 [ -n "$B1$B2" ] && { echo "BUILD PROBLEM: $B1 $B2"; }
-SUITE=$(go test -vet=off -count=1 $(go list ./... 2>/dev/null | grep -v loadhdf5) 2>&1 | grep -v "no test files" | grep -v hdf5 | grep -v '^ ' | grep -v '^#' | grep -v compilation | grep -v "^FAIL$")
+SUITE=$(go test -vet=off -count=1 $(go list ./... 2>/dev/null | grep -v loadhdf5 | grep -v SEEDED) 2>&1 | grep -v "no test files" | grep -v hdf5 | grep -v '^ ' | grep -v '^#' | grep -v compilation | grep -v "^FAIL$")
 echo "$SUITE" | grep -v "^ok" | head
 if echo "$SUITE" | grep -q "^FAIL\|^---"; then SUITE_OK=false; else SUITE_OK=true; fi
 cp "$S/demo_test.go" "$DEMO_DST"
